@@ -762,7 +762,8 @@ impl<RequireLeftInput, RequireRightInput> JoinBuilder<RequireLeftInput, RequireR
             Some(JoinOperator::LeftOuter(x)) => Some(JoinOperator::LeftOuter(Expr::and(expr, x))),
             Some(JoinOperator::RightOuter(x)) => Some(JoinOperator::RightOuter(Expr::and(expr, x))),
             Some(JoinOperator::FullOuter(x)) => Some(JoinOperator::FullOuter(Expr::and(expr, x))),
-            op => op,
+            // a cross join restricted by a condition is an inner join on it
+            Some(JoinOperator::Cross) | None => Some(JoinOperator::Inner(expr)),
         };
         self
     }
